@@ -76,6 +76,26 @@ CLAIMED = {
    note=TRUST + "KSem.v holds the reference semantics of the skeleton statements and the evaluation rules of the scaffolding expressions; both are validated against CPython each run by comparing traces of instrumented probes on the source and on the REAL converter output (model evaluator run on the real output AST).",
    technique="Coq simulation proof (induction on interpreter fuel, flag invariants, fuel-monotone evaluator) over the whole-converter model + AST correspondence + trace-equality oracle",
    ref="5/C05, Appendix A"),
+ "C11": dict(
+   text="Theorem C11_signature_copied (all function definitions: any number and mix of the five parameter kinds, defaults, decorators): "
+        "the emitted lambda carries exactly the source's five parameter lists, its defaults are the source's default expressions rewritten "
+        "in the defining namespace in the same order, decorators are applied bottom-up, the result is bound to the function name in the "
+        "defining namespace. C11_return_value: a call returns the value of the executed return or None (the C05 function-placement "
+        "simulation). That equal `arguments` records bind calls identically for def and lambda is CPython's construction (trusted); the "
+        "text-level signature round trip is decided by the oracle (inspect.signature, 20 call shapes, TypeError) over all 2700+ "
+        "parameter-list shapes (thorough) until the C03 parser theorem covers lambda signatures.",
+   note=TRUST + "Annotations are erased and not modelled.",
+   technique="Coq proof about the converter model (shape theorem + C05 simulation) + AST correspondence + call-binding oracle over the exhaustive parameter-shape matrix",
+   ref="5/C11"),
+ "C12": dict(
+   text="Theorems C12_members_replay (for EVERY sequence of class-body stores: running them against a dictionary and installing the "
+        "dictionary's items in order with setattr yields exactly the ordered attribute map of the stores: names, final values, "
+        "first-insertion order), C12_last_write_wins, C12_header (metaclass or type called with the class name, the rewritten bases in "
+        "order, the remaining keywords in order; bound in the defining namespace). Method kinds, MRO, super() are decided by executing the "
+        "1900-program skeleton product (support). Class-creation hooks are excluded by the property.",
+   note=TRUST + "ClassNs.v models dict/class-namespace ordering; the class object is created before its body runs (visible only to class-creation hooks).",
+   technique="Coq proof (ordered-map replay by induction with NoDup invariant; header shape theorem) + AST correspondence + differential execution of the skeleton product",
+   ref="5/C12"),
 }
 PENDING_REASON = "not yet built in this round: model/theorem under construction (see DESIGN.md section 8 build order); not claimed until its minimum is proved and tied"
 ALL = [f"C{i:02d}" for i in range(1, 18)]
